@@ -10,6 +10,7 @@
 import Ark.Proofs.Lock
 import Ark.Proofs.Rejects
 import Ark.Generated.FactsLock
+import Ark.Props.C07Hist
 
 namespace Ark.Props.C07
 open Ark Ark.Lock
@@ -256,5 +257,62 @@ theorem registerComponent_locked : type_of% @Ark.World.registerComponent_locked 
 theorem lock_checked_first_in_source :
     (Ark.Generated.lockFirst.all (·.2) && Ark.Generated.newBatchLockFirst.all (·.2)) = true ∧
     Ark.Generated.lockFirst.length = 15 ∧ Ark.Generated.newBatchLockFirst.length = 13 := by decide
+
+
+/-! ### Over histories with queries staying open across operations (Props/C07Hist) -/
+
+/-- the invariant of the machine that interleaves the eleven entity operations with `Query()`, `Next()`, `Close()` and event emission holds after every history: the lock mask is exactly the set of bits of the open queries, pairwise distinct -/
+theorem hist_reach_inv : type_of% @Ark.Props.C07Hist.reach_inv := @Ark.Props.C07Hist.reach_inv
+
+/-- **C07**: the world is locked iff some opened query has neither reported its end nor been closed -/
+theorem hist_locked_iff_open : type_of% @Ark.Props.C07Hist.locked_iff_open := @Ark.Props.C07Hist.locked_iff_open
+
+/-- at most 64 queries are open -/
+theorem hist_at_most_64 : type_of% @Ark.Props.C07Hist.at_most_64 := @Ark.Props.C07Hist.at_most_64
+
+/-- the 65th `Query()` panics `outOfLocks`; world and machine state unchanged -/
+theorem hist_qopen_65th : type_of% @Ark.Props.C07Hist.qopen_65th := @Ark.Props.C07Hist.qopen_65th
+
+/-- below 64 a `Query()` succeeds, also on a locked world, changes only the lock and takes a fresh bit -/
+theorem hist_qopen_below_64 : type_of% @Ark.Props.C07Hist.qopen_below_64 := @Ark.Props.C07Hist.qopen_below_64
+
+/-- while locked every structural operation (reg, new, new0, add, rem, xchg, del, copy, shrink, reset) panics and leaves the world and the machine state unchanged -/
+theorem hist_structural_rejected_while_locked : type_of% @Ark.Props.C07Hist.structural_rejected_while_locked := @Ark.Props.C07Hist.structural_rejected_while_locked
+
+/-- `Set` keeps working while locked, with its usual effect; the lock is untouched -/
+theorem hist_set_while_locked : type_of% @Ark.Props.C07Hist.set_while_locked := @Ark.Props.C07Hist.set_while_locked
+
+/-- reads (`alive`, component sets, values) agree with the specification at every state, locked or not -/
+theorem hist_reads_agree : type_of% @Ark.Props.C07Hist.reads_agree := @Ark.Props.C07Hist.reads_agree
+
+/-- event emission keeps working while locked -/
+theorem hist_emit_keeps_working : type_of% @Ark.Props.C07Hist.emit_keeps_working := @Ark.Props.C07Hist.emit_keeps_working
+
+/-- `Next()` of another open query keeps working -/
+theorem hist_qnext_keeps_working : type_of% @Ark.Props.C07Hist.qnext_keeps_working := @Ark.Props.C07Hist.qnext_keeps_working
+
+/-- a `Next()` that reports the end closes the query and releases exactly its bit -/
+theorem hist_qnext_end_releases : type_of% @Ark.Props.C07Hist.qnext_end_releases := @Ark.Props.C07Hist.qnext_end_releases
+
+/-- `Close()` of an open query releases exactly its bit -/
+theorem hist_qclose_releases : type_of% @Ark.Props.C07Hist.qclose_releases := @Ark.Props.C07Hist.qclose_releases
+
+/-- closing a finished or closed query again changes nothing -/
+theorem hist_qclose_again_harmless : type_of% @Ark.Props.C07Hist.qclose_again_harmless := @Ark.Props.C07Hist.qclose_again_harmless
+
+/-- the world is unlocked exactly when no query is open -/
+theorem hist_unlocked_iff_none_open : type_of% @Ark.Props.C07Hist.unlocked_iff_none_open := @Ark.Props.C07Hist.unlocked_iff_none_open
+
+/-- … and then the full invariant of the refinement machine holds again -/
+theorem hist_hinv_when_unlocked : type_of% @Ark.Props.C07Hist.hinv_when_unlocked := @Ark.Props.C07Hist.hinv_when_unlocked
+
+/-- … so the continuation is a history of the refinement machine -/
+theorem hist_continuation_runs_refine : type_of% @Ark.Props.C07Hist.continuation_runs_refine := @Ark.Props.C07Hist.continuation_runs_refine
+
+/-- while a query is open the archetypes, indices, pool, registry and every table's rows are frozen -/
+theorem hist_frozen_while_open : type_of% @Ark.Props.C07Hist.frozen_while_open := @Ark.Props.C07Hist.frozen_while_open
+
+/-- the rows an open cursor still has to visit are a suffix of the rows expected when it was opened -/
+theorem hist_cursor_frozen : type_of% @Ark.Props.C07Hist.cursor_frozen := @Ark.Props.C07Hist.cursor_frozen
 
 end Ark.Props.C07
